@@ -63,7 +63,7 @@ var bgStarted, bgFinished atomic.Int64
 // waitBackground waits (bounded) until every background function call begun
 // so far has finished.
 func waitBackground() bool {
-	for i := 0; i < 400; i++ {
+	for i := 0; i < 4000; i++ {
 		if bgStarted.Load() == bgFinished.Load() {
 			return true
 		}
